@@ -158,6 +158,11 @@ theorem C16_walk_ok (g : Graph) (hl : Linked g) (root : Nat) (hroot : root < g.l
 theorem C16_refs_terminates (g : Graph) (roots : List Field) : ∃ s, collect g roots = some s :=
   collect_isSome g roots
 
+/-- `assertRefsLink` (run when the schema set is built from the source API) terminates on every
+finite schema graph, linked or not -/
+theorem C16_link_terminates (g : Graph) : ∃ r, linkAll g = some r :=
+  Option.isSome_iff_exists.mp (linkRoots_isSome g _ [] ⟨List.nodup_nil, by simp⟩)
+
 /-- **Every schema reachable from a method or entity is present**: whatever can be reached from
 the root fields (request / response / path / query properties, entity keys / state / event
 properties) through object, oneof and enum references, directly or inside arrays and maps, is in
@@ -230,6 +235,9 @@ example : (walk exampleGraph 0).map (fun o => o.map (fun vs => vs.map (·.path))
     some (.ok [[b!"name"], [b!"self"], [b!"alt"], [b!"alt", b!"back"], [b!"alt", b!"kind"], [b!"alt", b!"many"]]) := by
   decide
 example : Linked exampleGraph := by decide
+example : (linkAll exampleGraph).map (·.isOk) = some true := by decide
+example : (linkAll [{ kind := .object, props := [{ name := b!"a", field := .array (.object 7) }] }]).map (·.isErr) =
+    some true := by decide
 example : collect exampleGraph [.object 0] = some [3, 2, 1, 0] := by decide
 example : Reach exampleGraph [.object 0] 3 :=
   .step (.step (.root (f := .object 0) (by simp) rfl (by decide)) ⟨_, rfl, _, by simp [Node.walkProps]; exact Or.inr (Or.inr rfl), rfl, by decide⟩)
